@@ -278,8 +278,8 @@ class Ref:
             for n in touched_nodes:
                 # the engine cancels the in-flight node n only if the failed candidate's launch loop wakes up while n is
                 # still running: some node of the candidate is a direct consumer of the failing node and does not wait for n
-                relay = any(self.deps[r] & failing and n != r and n not in self.anc[r] for r in cone)
-                if not relay or n in failing:
+                relay = any(self.deps[r] & (failing - {n}) and n != r and n not in self.anc[r] for r in cone)
+                if not relay:
                     continue
                 others = [sc for sc in self.requested.get(n, set()) if scope_id not in sc]
                 if others and all(oneof_ids(sc) for sc in self.requested.get(n, set())) \
